@@ -358,7 +358,10 @@ class Check:
             cov["notes"] = self.notes
         if self.known_hit:
             cov["known_findings_hit"] = [k for k, _ in self.known_hit]
-        # evidence schema: proof level wants obligations>=1 else generic fallback keys
+        # evidence schema: proof level wants obligations>=1 and discharged>=1, else generic fallback keys
+        if cov["discharged"] == 0 or cov["obligations"] == 0:
+            cov["obligations_total"] = cov.pop("obligations")
+            cov["discharged_count"] = cov.pop("discharged")
         if cov["evaluations"] == 0:
             cov.pop("evaluations")
             cov.pop("distinct_nontrivial")
